@@ -339,12 +339,14 @@ func (gta *GlobalTSOAllocator) SyncMaxTS(
 			go func(ctx context.Context, conn *grpc.ClientConn, respCh chan<- *syncResp) {
 				defer wg.Done()
 				syncMaxTSResp := &syncResp{}
+				verifSyncMaxTS("send", conn.Target(), request, syncMaxTSResp)
 				syncCtx, cancel := context.WithTimeout(ctx, rpcTimeout)
 				startTime := time.Now()
 				syncMaxTSResp.rpcRes, syncMaxTSResp.err = pdpb.NewPDClient(conn).SyncMaxTS(syncCtx, request)
 				// Including RPC request -> RPC processing -> RPC response
 				syncMaxTSResp.rtt = time.Since(startTime)
 				cancel()
+				verifSyncMaxTS("recv", conn.Target(), request, syncMaxTSResp)
 				respCh <- syncMaxTSResp
 				if syncMaxTSResp.err != nil {
 					log.Error("sync max ts rpc failed, got an error", zap.String("local-allocator-leader-url", leaderConn.Target()), errs.ZapError(err))
